@@ -304,6 +304,14 @@ func Discharge(obls []*Obligation, tmo time.Duration, workers int, dir string) [
 		if smt.DebugInst {
 			fmt.Printf("=== obligation %s\n", o.Name)
 		}
+		if o.Vacuity {
+			// contradiction hunting on the instantiated, quantifier-abstracted hypothesis:
+			// unsat there is a real contradiction; sat/unknown counts as not vacuous
+			asserts = smt.Instantiate(asserts, 300)
+			if g, changed := smt.AbstractQuantifiers(asserts); changed {
+				asserts = g
+			}
+		}
 		if !o.Vacuity {
 			if b, changed := smt.AbstractQuantifiers(smt.Skolemize(asserts)); changed {
 				bare[i] = smt.Script(b, nil, false)
